@@ -391,6 +391,24 @@ def run_shard(mod, spec, ctx):
                                   {'type': 'grid', 'n': D.enc(n), 'build': 'reordered'})
             if not sym and gi % 4 == 1:
                 error_path(ctx, mod, n)
+            if not sym and gi % 5 == 2 and n[4]:
+                # the last row once more; then the same grid with its equal rows / equal containers being one and the
+                # same Python object: it is the same grid, so the same text and the same verdict
+                from vf import hs as _hs
+                n2 = n[:4] + (n[4] + (n[4][-1],) + ((n[4][0],) if len(n[4]) > 1 else ()),)
+                sym1, detail1, art1 = mod.judge_grid(n2)
+                _hs.ALIAS = True
+                try:
+                    sym2, detail2, art2 = mod.judge_grid(n2)
+                finally:
+                    _hs.ALIAS = False
+                ctx.count('grids also built with shared row / container objects')
+                if not sym1 and (sym2 or art2.get('text') != art1.get('text')):
+                    ctx.violation({'part': 'grid', 'format': mod.FMT, 'position': 'document', 'kind': 'grid',
+                                   'symptom': 'depends-on-how-the-grid-was-built:' + (sym2 or 'text-differs'), 'features': ['build=shared-objects']},
+                                  'grid whose equal rows (and equal list / dict values) are the same Python object: %s; text %r, text with '
+                                  'separate objects %r' % (sym2 or 'another text', (art2.get('text') or '')[:200], (art1.get('text') or '')[:200]),
+                                  {'type': 'grid', 'n': D.enc(n2), 'build': 'shared-objects'})
         # history independence: the same grids dumped again, in reverse order and after everything else this process
         # has dumped, must give exactly the same text (a cache keyed on too little shows up here)
         for n, text in reversed(remembered):
@@ -511,6 +529,8 @@ def replay(mod, case, ctx):
         sym, detail, art = mod.judge_grid(n)
         if case['build'] == 'unitless-quantity':
             _hs.WRAP_NUM = True
+        elif case['build'] == 'shared-objects':
+            _hs.ALIAS = True
         else:
             _hs.BUILD = case['build']
         try:
@@ -518,6 +538,7 @@ def replay(mod, case, ctx):
         finally:
             _hs.BUILD = None
             _hs.WRAP_NUM = False
+            _hs.ALIAS = False
         if sym2 or art2.get('text') != art.get('text'):
             ctx.violation({'part': 'grid', 'format': mod.FMT, 'position': 'document', 'kind': 'grid',
                            'symptom': 'depends-on-how-the-grid-was-built:' + (sym2 or 'text-differs'), 'features': ['build=' + case['build']]},
